@@ -296,7 +296,31 @@ fn split_point(n: usize, ratio: f32) -> usize {
     (n as f32 * ratio).ceil() as usize
 }
 
+thread_local! {
+    static OFFSET_COPIES: std::cell::Cell<bool> = std::cell::Cell::new(false);
+}
+/// owned copy of `a` (same layout class) that is the middle part of a larger allocation
+fn padded<E: Clone, I: ndarray::Dimension + ndarray::RemoveAxis>(a: ArrayView<E, I>, junk: E) -> Array<E, I> {
+    let n = a.len_of(Axis(0));
+    if !a.is_standard_layout() || a.ndim() == 0 {
+        return a.to_owned();
+    }
+    let mut dim = a.raw_dim();
+    dim[0] = n + 2;
+    let mut out = Array::from_elem(dim, junk);
+    out.slice_axis_mut(Axis(0), ndarray::Slice::from(1..n + 1)).assign(&a);
+    out.slice_axis_inplace(Axis(0), ndarray::Slice::from(1..n + 1));
+    out
+}
+
 fn owned_copy<F: Scalar, D: Data<Elem = F>, S: Data<Elem = F>, I: TD>(ds: &DatasetBase<ArrayBase<D, Ix2>, ArrayBase<S, I>>) -> DatasetBase<Array2<F>, Array<F, I>> {
+    // off=1: owned copies keep an offset into a larger backing vector (one junk row before and after the data)
+    if OFFSET_COPIES.with(|o| o.get()) {
+        return DatasetBase::new(padded(ds.records().view(), F::lit(-77.0)), padded(ds.targets().view(), F::lit(-77.0)))
+            .with_weights(padded(ds.weights.view(), -77.0))
+            .with_feature_names(ds.feature_names().to_vec())
+            .with_target_names(ds.target_names().to_vec());
+    }
     DatasetBase::new(ds.records().to_owned(), ds.targets().to_owned())
         .with_weights(ds.weights.clone())
         .with_feature_names(ds.feature_names().to_vec())
@@ -544,9 +568,28 @@ fn ops_i<F: Scalar, I: TD>(p: &Params, choice_rng: bool) {
     // hidden fault injection (never in the registry): hand linfa misaligned data and see the checks fire
     let sw = |on: bool, r: usize| if on && r < 2 && n >= 2 { 1 - r } else { r };
     let m = cx.mutant;
-    let mut ds = DatasetBase::new(cx.records(), I::build(n, ntc, &|r, c| cx.t[sw(m == 11, r)][c]));
+    // off=1: the owned arrays are the middle n rows of arrays with n+2 rows (`slice_axis_inplace`): still owned and
+    // in standard layout, but the backing vectors start before and end after the data
+    let off = p.u("off", 0);
+    OFFSET_COPIES.with(|o| o.set(off == 1));
+    let junk = F::lit(-77.0);
+    let mut ds = if off == 0 {
+        DatasetBase::new(cx.records(), I::build(n, ntc, &|r, c| cx.t[sw(m == 11, r)][c]))
+    } else {
+        let mut rec = Array2::from_shape_fn((n + 2, nf), |(r, j)| if r == 0 || r == n + 1 { junk } else { cx.x[r - 1][j] });
+        rec.slice_axis_inplace(Axis(0), ndarray::Slice::from(1..n + 1));
+        let mut tg = I::build(n + 2, ntc, &|r, c| if r == 0 || r == n + 1 { junk } else { cx.t[sw(m == 11, r - 1)][c] });
+        tg.slice_axis_inplace(Axis(0), ndarray::Slice::from(1..n + 1));
+        DatasetBase::new(rec, tg)
+    };
     if p.u("w", 1) == 1 {
-        ds = ds.with_weights(Array1::from_shape_fn(n, |r| cx.w[sw(m == 12, r)]));
+        if off == 0 {
+            ds = ds.with_weights(Array1::from_shape_fn(n, |r| cx.w[sw(m == 12, r)]));
+        } else {
+            let mut w = Array1::from_shape_fn(n + 2, |r| if r == 0 || r == n + 1 { -77.0 } else { cx.w[sw(m == 12, r - 1)] });
+            w.slice_axis_inplace(Axis(0), ndarray::Slice::from(1..n + 1));
+            ds = ds.with_weights(w);
+        }
     }
     if p.u("names", 1) == 1 {
         let mut f = cx.fnames.clone();
